@@ -308,7 +308,7 @@ def c08(run):
                 continue
             seen.add(m.group(1))
             cases.append({"name": f"tlc-sim-{scn}-{n}-{len(seen)}",
-                          "scenario": "stream_bridge" if scn == "stream" else "all_core", "threads": n,
+                          "scenario": "stream_bridge" if scn == "stream" else "flat_core", "threads": n,
                           "sched": json.loads(m.group(1))})
         if len(seen) < num // 4:
             raise lib.ToolError("too few schedules harvested from TLC simulation")
@@ -342,7 +342,8 @@ def c08(run):
                        "point_names_seen": sorted(points)})
     # 3. systematic preemption-bounded enumeration on the real threads (both scenarios)
     for scn, k, p, stride in (("stream_bridge", 2, 2 if q else 3, 1), ("join_core", 3, 2, 1 if not q else 3),
-                              ("all_core", 2, 2, 1 if not q else 2), ("stream_bridge", 3, 1 if q else 2, 1)):
+                              ("all_core", 2, 2, 1 if not q else 2), ("flat_core", 2, 2, 1 if not q else 3),
+                              ("stream_bridge", 3, 1 if q else 2, 1)):
         op2 = run.path(f"mtenum_{scn}_{k}.out")
         rc, out = lib.sh([lib.BIN, "mtenum", scn, str(k), str(p), op2, str(stride)], timeout=6000)
         if rc != 0:
@@ -358,7 +359,8 @@ def c08(run):
                 mt_violation(run, r)
     # 3b. the same scenarios free-running on real threads (no controller): race windows that lie
     #     inside one segment between two schedule points are only reachable this way
-    for scn, k in (("stream_bridge", 2), ("join_core", 2), ("all_core", 2), ("stream_bridge", 3), ("all_core", 3)):
+    for scn, k in (("stream_bridge", 2), ("join_core", 2), ("all_core", 2), ("flat_core", 2), ("stream_bridge", 3),
+                   ("all_core", 3)):
         iters = 8000 if q else 250000
         op3 = run.path(f"mtstress_{scn}_{k}.out")
         rc, out = lib.sh([lib.BIN, "mtstress", scn, str(k), str(iters), op3], timeout=6000)
